@@ -72,3 +72,16 @@ Example C21_nonvacuous :
                         LSrvReply b; LSrvReply a; LDeliver; LCb b; LPush; LDeliver; LCb a] = Some s
             /\ cblog s = [a; b; a] /\ sent s = 4 /\ recv s = 3 /\ counter s = 2.
 Proof. eexists. split; [vm_compute; reflexivity|]. repeat split. Qed.
+
+(* C21_stop refuted on the pinned tree for large limits: with limit 100 a state with more
+   than 80 unanswered requests is reachable; the engine's send queue has 80 slots and is
+   drained only with client agency, so Stop()'s SendMessage(Done) blocks (observed:
+   known finding stop-hangs-sendqueue-full). *)
+Theorem C21_stop_queue_can_fill :
+  let t := {| tslot := 9; thash := []; tblock := 3 |} in
+  let a := RollForward 5 [] t in
+  exists ls s, run 100 init ls = Some s /\ 80 < sent s - replied s.
+Proof.
+  intros t a. exists ([LSrvReply a; LDeliver; LCb a; LPush; LTake; LProc] ++ repeat LSendReq 100).
+  eexists. split; [vm_compute; reflexivity|]. cbn. lia.
+Qed.
